@@ -6,12 +6,15 @@ package main
 //     css-ok    the model's declsOK on re-scanned values  vs  the independent Go check cssValueOK
 //     escape    html.EscapeString vs Model.TextHtml.escape
 //     text      web.TextToHTML(t) vs Model.TextHtml.textToHTML t spans, spans = the repo's own urlRE on the escaped text
+//     filter    (c18filter.go, mode "sanf") sanitizeStyleTags vs Model.StyleFilter.filter over the real tokenizer's tokens
 //   Implementation-only oracles (never consult the model):
 //     allowlist_dangerous_property   none of the properties ruled out in Ibx/Tie/San.lean is a key of allowedProperties
 //     css_output_allowlisted   every declaration of sanitizeStyle's output starts with an allow-listed property
 //     html_no_panic / html_no_error, html_no_active_element, html_no_event_attr, html_no_script_url,
 //     html_style_allowlisted   on the re-tokenised output of sanitize.HTML for generated malformed markup
 //     filter_roundtrip         (assumption A2) the tokenizer re-reads styleTagFilter's output as the same tokens
+//     filter_token_agreement   (c18filter.go) differential parse: the filter's output is explained token by token by
+//                              bluemonday's tokenisation of the input, and re-read with the same kinds / names / keys
 //     text_tokens, text_content, text_href_scheme (F-18a), text_href_quote   on the re-tokenised TextToHTML output
 //     lower_ascii_preimage     the only runes >= 0x80 that unicode.ToLower maps into ASCII are U+0130 and U+212A
 //     spans_faithful           the exported spans are exactly the matches ReplaceAllStringFunc visits; no CR/LF in a match
@@ -720,13 +723,8 @@ func c18Tokens(s string) []c18HTok {
 		}
 		t := z.Token()
 		h := c18HTok{typ: tt, name: t.Data, attr: t.Attr}
-		if tt == html.TextToken {
+		if tt == html.TextToken || tt == html.CommentToken || tt == html.DoctypeToken {
 			h.name, h.text = "", t.Data
-		}
-		if tt == html.CommentToken || tt == html.DoctypeToken {
-			// compared by kind only: x/net/html reports the data of a bogus comment such as "<!>" differently at
-			// end of input ("<!>" alone -> ">", "<!>x" -> ""), and comments never survive the policy anyway
-			h.name, h.text = "", ""
 		}
 		res = append(res, h)
 	}
@@ -807,6 +805,14 @@ func c18HTMLOracles(c *core.Ctx, in string) []string {
 	for i := 0; same && i < len(a); i++ {
 		x, y := a[i], b[i]
 		if x.typ != y.typ || x.name != y.name || x.text != y.text {
+			// x/net/html quirk (readMarkupDeclaration): the bogus comment `<!>` has data "" when anything follows
+			// it and data ">" when it is the last thing of the stream (the read-ahead of two bytes hits EOF).  The
+			// filter drops an unfinished tag at the end of the input, so `<!><p x` -> `<!>` changes the comment's
+			// DATA (not its kind, not its raw bytes).  Comment data carries nothing: not a disagreement.
+			if x.typ == html.CommentToken && y.typ == html.CommentToken && i == len(a)-1 && x.text == "" && y.text == ">" && strings.HasSuffix(mid, "<!>") {
+				c.H("html:tokenizer-quirk-bang-comment-at-eof")
+				continue
+			}
 			same = false
 			break
 		}
@@ -914,4 +920,5 @@ func runC18(c *core.Ctx) {
 	c18Css(c)
 	c18Text(c)
 	c18HTML(c)
+	c18Filter(c) // c18filter.go: the style-tag filter at token level (T2 `filter`, oracle filter_token_agreement)
 }
